@@ -8,11 +8,11 @@
  ],
  "kind": "K2",
  "tier": "thorough",
- "timeout": 1800, "mem_gb": 30,
+ "timeout": 2400,
+ "mem_gb": 30,
  "split": {
   "define": "ONLY_STAGE",
   "values": {
-   "hdr": 1,
    "skiphdr": 6
   }
  },
@@ -37,9 +37,9 @@
  ],
  "floor": 200,
  "assumes": [
-  "same harness and assumptions as c09_decompress_continue; the two stages that stage header bytes inside the context at a symbolic offset (frame header, skippable header) need 15+ minutes each"
+  "same harness and assumptions as c09_decompress_continue; the skippable-header stage stages header bytes inside the context at a symbolic offset and needs about 15 minutes (the frame-header stage is covered per header size by the quick unit c09_decompress_continue_hdrsizes)"
  ],
- "what": "c09_decompress_continue for the stages ZSTDds_decodeFrameHeader and ZSTDds_decodeSkippableHeader",
+ "what": "c09_decompress_continue for the stage ZSTDds_decodeSkippableHeader",
  "cbmc": [
   "--sat-solver",
   "cadical"
